@@ -143,6 +143,30 @@ def serde_field_names(f, adt):
     return names
 
 
+def _reader_landing(f, db, adt_path, helper):
+    """wire name -> field of the rebuilt value that receives what the helper decoded under that name (through crate-local constructors)"""
+    import r_window
+    hnames = serde_field_names(f, helper)
+    direct, derived = {}, {}
+    for fields, line in r_window._agg_fields_through_helpers(f, db, adt_path):
+        for fld, tree in fields.items():
+            t = tree
+            while isinstance(t, tuple) and t and t[0] in ('ref', 'deref'):
+                t = t[1]
+            if isinstance(t, tuple) and t and t[0] == 'field' and t[2] in hnames:
+                direct.setdefault(hnames[t[2]], set()).add(fld)         # the decoded value itself is stored there
+                continue
+            hs = {x[2] for x in walk_tree(tree) if isinstance(x, tuple) and x and x[0] == 'field' and x[2] in hnames}
+            if len(hs) == 1:
+                derived.setdefault(hnames[next(iter(hs))], set()).add(fld)
+    out = {}
+    for wire in set(direct) | set(derived):
+        c = direct.get(wire) or derived.get(wire)
+        if len(c) == 1:
+            out[wire] = next(iter(c))
+    return out
+
+
 def s02_manual_serde_tables(ctx, only=None):
     f = ctx.facts('default')
     m = Model(f)
@@ -191,9 +215,7 @@ def s02_manual_serde_tables(ctx, only=None):
             r.violate(key + '|duplicate-or-nonliteral-field', 'serialized field names %s are not distinct literals' % lits, sb.file, sb.line)
         if decl_len != len(written):
             r.violate(key + '|len', 'serialize_struct announces %s fields, %d are written' % (decl_len, len(written)), sb.file, sb.line)
-        for lit, src, line in written:
-            if src != lit:
-                r.violate(key + '|field|%s' % lit, 'field "%s" is serialized from %s (expected self.%s)' % (lit, 'self.%s' % src if src else 'a non-field expression', lit), sb.file, line)
+        renamed = [(lit, src, line) for lit, src, line in written if src != lit]
         # reader side
         di = manual_de.get(p)
         if di is None:
@@ -209,6 +231,14 @@ def s02_manual_serde_tables(ctx, only=None):
                 if base in f.adts:
                     helper = f.adts[base]
         r.inst(short + '|deserialize')
+        # a written name that differs from the field it is taken from is still the same wiring when the reader puts the value it decodes
+        # under that name into exactly that field (a private field renamed while the wire names are kept)
+        lands = _reader_landing(f, db, p, helper) if helper is not None and renamed else {}
+        for lit, src, line in renamed:
+            if src is not None and lands.get(lit) == src:
+                continue
+            r.violate(key + '|field|%s' % lit, 'field "%s" is serialized from %s (expected self.%s%s)' % (
+                lit, 'self.%s' % src if src else 'a non-field expression', lands.get(lit, lit), ', where the reader puts it' if lit in lands else ''), sb.file, line)
         if helper is None:
             r.violate(short + '|deserialize|no-helper', 'the hand-written Deserialize does not read through a derive(Deserialize) helper struct; reader table unknown', db.file, db.line)
             continue
